@@ -107,7 +107,9 @@ impl Kinematics for OPWKinematics {
                     let s_n;
                     if let Some(Singularity::A) = singularity {
                         let mut now = ik[s_idx];
-                        if are_angles_close(now[J5], 0.) {
+                        let now_q5 = now[J5] * self.parameters.sign_corrections[J5] as f64
+                            - self.parameters.offsets[J5];
+                        if are_angles_close(now_q5, 0.) {
                             // J5 = 0 singlularity, J4 and J6 rotate same direction
                             s = previous[J4] + previous[J6];
                             s_n = now[J4] + now[J6];
@@ -303,7 +305,10 @@ impl Kinematics for OPWKinematics {
     }
 
     fn kinematic_singularity(&self, joints: &Joints) -> Option<Singularity> {
-        if is_close_to_multiple_of_pi(joints[J5], SINGULARITY_ANGLE_THR) {
+        // J5 as the OPW model sees it: sign correction and offset applied
+        let p = &self.parameters;
+        let q5 = joints[J5] * p.sign_corrections[J5] as f64 - p.offsets[J5];
+        if is_close_to_multiple_of_pi(q5, SINGULARITY_ANGLE_THR) {
             Some(Singularity::A)
         } else {
             None
